@@ -298,23 +298,28 @@ def consolidate (r : Repo) : M Repo :=
           | .error e => .error e
           | .ok (r6, nbs) => .ok { r6 with branches := nbs, longest := mi }
 
+/-- the records of the current main file that precede the lowest header still in memory (`saveMainBranch`
+    re-reads them when the branch has been pruned inside a file). -/
+def saveMainStart (r : Repo) : M (List HData) :=
+  let mb := r.br r.longest
+  let height := mb.prunedLowest
+  let file := Int.tdiv height hpf
+  let keepCount := height - file * hpf
+  if mb.offset ≠ 1 ∧ keepCount > 0 then
+    match List.lookup file.toNat r.store.main with
+    | none => .error (.err "save main: read")
+    | some recs =>
+      -- data[:currentFileByteOffset+1]
+      if (recs.length : Int) < keepCount then .error (.panic "save main: slice bounds out of range") else .ok (recs.take keepCount.toNat)
+  else .ok []
+
 /-- `saveMainBranch`: writes the longest branch into the 1000-header main files, ascending, then
     removes the next file. -/
 def saveMainBranch (r : Repo) : M Repo :=
   let mb := r.br r.longest
   let height := mb.prunedLowest
   let file := Int.tdiv height hpf
-  let fileHeight := file * hpf
-  let keepCount := height - fileHeight
-  let start : M (List HData) :=
-    if mb.offset ≠ 1 ∧ keepCount > 0 then
-      match List.lookup file.toNat r.store.main with
-      | none => .error (.err "save main: read")
-      | some recs =>
-        -- data[:currentFileByteOffset+1]
-        if (recs.length : Int) < keepCount then .error (.panic "save main: slice bounds out of range") else .ok (recs.take keepCount.toNat)
-    else .ok []
-  match start with
+  match saveMainStart r with
   | .error e => .error e
   | .ok buf0 =>
     let rec go : List HData → Repo → Int → Int → List HData → Repo × Int × List HData
